@@ -354,7 +354,12 @@ TEMP_NESTED = ["const rows@ = list.map(item => <Comp>{cell(item)}</Comp>);",    
                "for (const it of list) { out.push(<Foo>{it()}</Foo>); }",
                "class K@ { m(p = <Bar>{g()}</Bar>) { return <Foo>{f(p)}</Foo>; } }",
                "function pd@(p = <Bar>{g()}</Bar>) { return p; }",
-               "const id@ = (i) => <Comp>{i}</Comp>;"]                                              # a concise arrow that needs no temporary
+               "const id@ = (i) => <Comp>{i}</Comp>;",                                              # a concise arrow that needs no temporary
+               # loops WITHOUT braces and class field initialisers: a temporary declared outside them is shared by all iterations / instances
+               "for (const it of list) out.push(<Foo>{it()}</Foo>);",
+               "let w@ = 0; while (w@++ < 3) out.push(<Foo>{f(w@)}</Foo>);",
+               "for (let j = 0; j < 3; j++) out.push(<Foo>{f(j)}</Foo>);",
+               "class F@ { v = <Foo>{f()}</Foo>; }"]
 TEMP_SCOPES = ["%s", "function scope@() {\n%s\n}", "{\n%s\n}", "const scope@ = () => {\n%s\n};", "class S@ { m() {\n%s\n} }", "for (const e@ of list) {\n%s\n}",
                "export default function () {\n%s\n}"]
 TEMP_ARRANGE = ["PN", "NP", "PNP", "PPN", "NPN", "N", "PNNP", "NN"]
